@@ -5,6 +5,16 @@ ROOT = os.path.dirname(os.path.dirname(os.path.abspath(__file__)))
 
 # id -> (engine, category, technique, level text, level note, design ref)
 CHECKS = {
+ "C14": ("vh-client", "exploration",
+         "proptest over lengths around every size-class boundary x contents x fetch completion orders; real autonomi self-encryption + Client::data_get / data_get_public over a hand-stepped client driver answering from an in-memory chunk map; same binary also built with MAX_CHUNK_SIZE=1024 (child process) to reach 1-3 additional data-map levels; round-trip / size / SHA3 address / determinism oracle",
+         "Generated round trips through the real client fetch path in two builds: returned bytes equal the input for every boundary length and multi-level data map, every chunk is addressed by the independent SHA3-256 of its content and bounded by MAX_CHUNK_SIZE (known dependency finding excluded by signature), encryption is deterministic, inputs < 3 bytes are rejected. Held-on-N-cases assurance.",
+         "The network is an in-memory chunk map answering at the kad-event seam; CHUNK_DOWNLOAD_BATCH_SIZE is process-global (recorded in the evidence); chunk address order of the returned vector is not asserted.",
+         "DESIGN.md §3 C14"),
+ "C15": ("vh-client", "exploration",
+         "proptest over adversarial reply sets: substituted / wrong-kind / garbage / truncated / other-key chunk replies for chunk_get and data_get_public, and 5 holders x <=4 scratchpad versions (owner-signed, unsigned, forged, inflated counter, foreign-owned but encrypted to the requester) with generated arrival order and terminator for fetch_and_decrypt_vault, injected at the kad-event seam of the real client driver; hash-to-address and authentic-highest-counter oracle",
+         "Generated adversarial holders against the real client read paths: any returned chunk hashes to the requested address, any returned public data is the data the requested data map describes, any returned vault content comes from a delivered version owned and validly signed by the requested key with the highest such counter, and no authentic version means an error. Held-on-N-cases assurance.",
+         "Authenticity recomputed in the harness (owner key + BLS over counter||SHA3(data)); reads that end in an error are always acceptable; 'received' = delivered before the query completed.",
+         "DESIGN.md §3 C15"),
  "C12": ("vh-protocol", "exploration",
          "proptest round-trip of every record kind and every request/response variant through the repository's msgpack and CBOR codecs, byte-exact differential against 72 frozen goldens in both directions, exhaustive single mutations of every golden, generated structural byte mutations, and (thorough) libFuzzer targets carrying the same oracle in-target",
          "Round-trip, fixed-size/fixed-number tag, golden, forged-chunk-address, no-panic and decode-reencode laws held on ~2.1 M (quick) to 60 M+ (thorough) generated inputs plus exhaustive sub-enumerations (all 256 tags, every truncation offset / bit flip / tag rewrite of each golden); changes to a tag number, field order, variant name, skipped field, serialised chunk address or header bounds check are each detected in the quick tier.",
